@@ -508,7 +508,9 @@ func (r *roles) ruleCountdown(s *report.Sink) {
 					}
 				}
 			}
-			if notDone == nil {
+			if notDone != nil && len(conds) != 1 {
+				s.Bad("S7", key, r.pos(at), "the +1 is subject to a further condition beyond !dep.done while the registration in dep.consumers is not (or vice versa): the countdown and the notifications it will receive diverge, so the job can become ready while a dependency is still running")
+			} else if notDone == nil {
 				s.Bad("S7", key, r.pos(at), "registration on a dependency is not guarded by !dep.done: a finished dependency would never notify and the job waits for ever")
 			} else if !paired {
 				s.Bad("S7", key, r.pos(at), "remaining+1 is not paired with `dep.consumers = append(dep.consumers, job)` in the same block")
@@ -563,7 +565,12 @@ func (r *roles) ruleCountdown(s *report.Sink) {
 				}
 			}
 		}
-		s.Check(good, "S7", "loop|consumers write#"+r.armName(at), r.pos(at), "append paired with remaining+1", "consumer list modified without the matching remaining+1 (countdown and notifications diverge)")
+		if good {
+			if rs := r.rangeOverDeps(at); rs == nil || len(r.par.Known(at, rs)) != 1 {
+				good = false
+			}
+		}
+		s.Check(good, "S7", "loop|consumers write#"+r.armName(at), r.pos(at), "append paired with remaining+1, both exactly under !dep.done", "consumer list modified without the matching remaining+1 under the same condition (countdown and notifications diverge)")
 	})
 
 	// S8
@@ -583,6 +590,20 @@ func (r *roles) ruleCountdown(s *report.Sink) {
 		break // first branching statement reached
 	}
 	s.Check(found, "S8", key, r.pos(r.armDone), "the finished job is marked done before any branch of the result arm", "result arm does not unconditionally mark the finished job done before branching: later enqueues would wait on it for ever")
+	nDone := 0
+	astx.Writes(r.pkgNode(), func(l ast.Expr, at ast.Node) {
+		if _, f, ok := astx.FieldSel(info, l); ok && f == r.sjDone {
+			nDone++
+			top := false
+			for _, st := range r.armDone.Body {
+				if ast.Node(st) == at {
+					top = true
+				}
+			}
+			s.Check(top, "S8", "loop|write of done#"+r.armName(at), r.pos(at), "the only place a job becomes done is the entry of the result arm, which always goes on to notify its consumers", "a job is marked done outside the entry of the result arm: it finishes without the notification of its consumers (their countdown never reaches zero: Wait hangs) and without a worker result")
+		}
+	})
+	s.Check(nDone == 1, "S8", "loop|single done site", r.pos(r.armDone), "", fmt.Sprintf("%d writes to ScheduledJob.done (want 1)", nDone))
 
 	// S23
 	var depsRange *ast.RangeStmt
@@ -618,6 +639,16 @@ func (r *roles) ruleCountdown(s *report.Sink) {
 		s.Check(ok23, "S23", "loop|late enqueue invalidation", r.pos(depsRange), "a job enqueued after a dependency failed is marked invalid (exactly when dep.done && dep.err != nil)", "a job enqueued after its dependency failed is not (exactly) invalidated")
 	}
 	_ = decLoop
+}
+
+// rangeOverDeps: the enclosing range over the new job's deps.
+func (r *roles) rangeOverDeps(n ast.Node) *ast.RangeStmt {
+	for p := r.par[n]; p != nil; p = r.par[p] {
+		if q, ok := p.(*ast.RangeStmt); ok && astx.IsFieldOf(r.info, q.X, r.enqJob, r.sjDeps) {
+			return q
+		}
+	}
+	return nil
 }
 
 func siblingStmts(par astx.Parents, n ast.Node) []ast.Stmt {
